@@ -1,78 +1,11 @@
 (* C07: instance theorems of the process_state.rs step model, by verified reachability closure
-   (proofs/ProcStateClosure.v: all schedules of a fixed finite instance), finite crash-point
-   tables (sequential follow-up after a kill before each call), and concrete refuting schedules. *)
-From V Require Import model.Base model.Conc model.Fs model.ProcState proofs.ProcStateClosure.
+   (proofs/ProcStateClosure.v: all schedules of a fixed finite instance; the closure computations
+   live in ProcStateSafeU/P.v and ProcStateSweep1-3.v so that they build in parallel), finite
+   crash-point tables and concrete refuting schedules (ProcStateTables.v). *)
+From V Require Import model.Base model.Conc model.Fs model.ProcState proofs.ProcStateClosure proofs.ProcStateDefs
+  proofs.ProcStateSafeU proofs.ProcStateSafeP proofs.ProcStateSweep1 proofs.ProcStateSweep2 proofs.ProcStateSweep3.
+From V Require Export proofs.ProcStateDefs proofs.ProcStateTables.
 Open Scope N_scope.
-
-Definition has_ret (op code : N) (es : list pev) : bool :=
-  existsb (fun e => match e with ERet o c => N.eqb o op && N.eqb c code | _ => false end) es.
-Lemma has_ret_In op code es : In (ERet op code) es -> has_ret op code es = true.
-Proof.
-  intros H. unfold has_ret. apply existsb_exists. exists (ERet op code). split; auto.
-  now rewrite !N.eqb_refl.
-Qed.
-Definition guard_crashed (s : st) : bool := match nth_error (snd s) 0 with Some l => crashed l | None => false end.
-
-(* the property of one transition: it neither returns the verdict Dead nor hands out a
-   ProcessCleaner, unless the guard process (process 0) has crashed *)
-Definition P_safe (s : st) (t : nat) (es : list pev) : bool :=
-  Nat.ltb 0 (length (snd s)) && ((negb (has_ret OP_STATE VDead es) && negb (has_ret OP_CLEAN 0 es)) || guard_crashed s).
-
-(* an F_GETLK on the state file issued after the death of the guard process never sees its lock *)
-Definition sees_state_lock (es : list pev) : bool :=
-  existsb (fun e => match e with ECall r (KGetlk LWrite) (RLock (Some LWrite)) => N.eqb r R_STATE | _ => false end) es.
-Definition P_nolock (s : st) (t : nat) (es : list pev) : bool :=
-  Nat.ltb 0 (length (snd s)) && negb (guard_crashed s && sees_state_lock es).
-
-(* instances: process 0 = the guarded process over its whole life (create, hold, orderly drop),
-   optionally killed before its k-th call; process 1 = one monitor / one cleaner *)
-Definition inst_mon (k : option nat) : list (list pop * option nat) := [([OCreate; ODrop], k); ([OState], None)].
-Definition inst_cln (k : option nat) : list (list pop * option nat) := [([OCreate; ODrop], k); ([OClean; OCDrop], None)].
-Definition inst_mon_exit : list (list pop * option nat) := [([OCreate; OExit], None); ([OState], None)].
-
-Definition FUEL := 20000%nat.
-Definition check (priv nlc : bool) P ps : bool :=
-  let S := reach_set priv nlc ps FUEL in mem (init_st ps) S && closed priv nlc P S.
-
-Lemma check_sound priv nlc P ps :
-  check priv nlc P ps = true ->
-  forall sched t c' es,
-    step1 (step priv nlc) t (fst (run (step priv nlc) sched (init (progs_of ps) (kills_of ps)))) = Some (c', es) ->
-    exists s, rel (fst (run (step priv nlc) sched (init (progs_of ps) (kills_of ps)))) s /\ P s t es = true.
-Proof.
-  intros H. apply andb_prop in H. destruct H as [Hm Hc].
-  intros. eapply closed_transitions; eauto. apply rel_init.
-Qed.
-
-Lemma mon_safe_u : check false true P_safe (inst_mon None) = true. Proof. vm_compute. reflexivity. Qed.
-Lemma mon_safe_p : check true true P_safe (inst_mon None) = true. Proof. vm_compute. reflexivity. Qed.
-Lemma cln_safe_u : check false true P_safe (inst_cln None) = true. Proof. vm_compute. reflexivity. Qed.
-Lemma cln_safe_p : check true true P_safe (inst_cln None) = true. Proof. vm_compute. reflexivity. Qed.
-
-(* the guard process of a related list state *)
-Lemma rel_guard c s : rel c s -> Nat.ltb 0 (length (snd s)) = true ->
-  exists l, nth_error (snd s) 0 = Some l /\ snd c 0%nat = l.
-Proof.
-  intros [_ Hl] Hlen. specialize (Hl 0%nat).
-  destruct (nth_error (snd s) 0) as [l|] eqn:E; [eauto|].
-  apply nth_error_None in E. apply Nat.ltb_lt in Hlen. lia.
-Qed.
-
-Lemma safe_conclusion priv ps sched t c' es :
-  check priv true P_safe ps = true ->
-  step1 (step priv true) t (fst (run (step priv true) sched (init (progs_of ps) (kills_of ps)))) = Some (c', es) ->
-  In (ERet OP_STATE VDead) es \/ In (ERet OP_CLEAN 0) es ->
-  crashed (snd (fst (run (step priv true) sched (init (progs_of ps) (kills_of ps)))) 0%nat) = true.
-Proof.
-  intros Hc Hst Hin.
-  destruct (check_sound _ _ _ _ Hc _ _ _ _ Hst) as [s [Hrel HP]].
-  unfold P_safe in HP. apply andb_prop in HP. destruct HP as [Hlen HP].
-  destruct (rel_guard _ _ Hrel Hlen) as [l [E Hl]].
-  unfold guard_crashed in HP. rewrite E in HP. rewrite Hl.
-  apply orb_prop in HP. destruct HP as [HP|HP]; [|exact HP].
-  apply andb_prop in HP. destruct HP as [H1 H2].
-  destruct Hin as [Hin|Hin]; apply has_ret_In in Hin; rewrite Hin in *; discriminate.
-Qed.
 
 Theorem alive_never_dead_or_reclaimed : forall priv ps sched t c' es,
   ps = inst_mon None \/ ps = inst_cln None ->
@@ -84,28 +17,6 @@ Proof.
   destruct priv, Hps as [-> | ->]; [apply mon_safe_p | apply cln_safe_p | apply mon_safe_u | apply cln_safe_u].
 Qed.
 
-(* ---------------- after the death of the guard process ---------------- *)
-Lemma mon_exit_nolock_u : check false true P_nolock inst_mon_exit = true. Proof. vm_compute. reflexivity. Qed.
-Lemma mon_exit_nolock_p : check true true P_nolock inst_mon_exit = true. Proof. vm_compute. reflexivity. Qed.
-
-Definition sweep_nolock (priv : bool) : bool :=
-  forallb (fun k => check priv true P_nolock (inst_mon (Some k))) (seq 0 21).
-Lemma sweep_nolock_u : sweep_nolock false = true. Proof. vm_compute. reflexivity. Qed.
-
-Lemma nolock_conclusion priv ps sched t c' es :
-  check priv true P_nolock ps = true ->
-  step1 (step priv true) t (fst (run (step priv true) sched (init (progs_of ps) (kills_of ps)))) = Some (c', es) ->
-  crashed (snd (fst (run (step priv true) sched (init (progs_of ps) (kills_of ps)))) 0%nat) = true ->
-  sees_state_lock es = false.
-Proof.
-  intros Hc Hst Hcr.
-  destruct (check_sound _ _ _ _ Hc _ _ _ _ Hst) as [s [Hrel HP]].
-  unfold P_nolock in HP. apply andb_prop in HP. destruct HP as [Hlen HP].
-  destruct (rel_guard _ _ Hrel Hlen) as [l [E Hl]].
-  unfold guard_crashed in HP. rewrite E in HP. rewrite Hl in Hcr. rewrite Hcr in HP.
-  cbn in HP. now destruct (sees_state_lock es).
-Qed.
-
 Theorem dead_lock_never_seen : forall priv ps sched t c' es,
   ps = inst_mon_exit \/ (priv = false /\ exists k, (k <= 20)%nat /\ ps = inst_mon (Some k)) ->
   step1 (step priv true) t (fst (run (step priv true) sched (init (progs_of ps) (kills_of ps)))) = Some (c', es) ->
@@ -115,110 +26,9 @@ Proof.
   intros priv ps sched t c' es Hps. apply nolock_conclusion.
   destruct Hps as [-> | [-> [k [Hk ->]]]].
   - destruct priv; [apply mon_exit_nolock_p | apply mon_exit_nolock_u].
-  - pose proof sweep_nolock_u as H. unfold sweep_nolock in H. rewrite forallb_forall in H.
-    apply H. apply in_seq. lia.
+  - pose proof sweep_nolock_1 as H1. pose proof sweep_nolock_2 as H2. pose proof sweep_nolock_3 as H3.
+    rewrite forallb_forall in H1, H2, H3.
+    destruct (Nat.le_gt_cases k 6); [apply H1; apply in_seq; lia|].
+    destruct (Nat.le_gt_cases k 13); [apply H2; apply in_seq; lia|].
+    apply H3; apply in_seq; lia.
 Qed.
-
-(* ---------------- crash-point tables: sequential follow-up ---------------- *)
-(* the processes run one after the other, each until it cannot move any more *)
-Definition seq_sched (n : nat) : list nat := concat (map (fun t => repeat t 120) (seq 0 n)).
-Definition rets (tr : list (nat * pev)) : list (nat * N * N) :=
-  flat_map (fun x => match snd x with ERet op code => [(fst x, op, code)] | _ => [] end) tr.
-Definition seq_rets (priv : bool) (ps : list (list pop * option nat)) : list (nat * N * N) * list (N * N) :=
-  let r := run (step priv true) (seq_sched (length ps)) (init (progs_of ps) (kills_of ps)) in
-  (rets (snd r), fs_listing (fst (fst r))).
-
-Definition FOLLOW : list pop := [OState; OClean; OCDrop; OState].
-(* guard killed before its k-th call (create = calls 0..11, drop = 12..20), then a fresh process *)
-Definition after_guard_kill (priv : bool) (k : nat) := seq_rets priv [([OCreate; ODrop], Some k); (FOLLOW, None)].
-Definition follow (a b c d : N) : list (nat * N * N) := [(1%nat, OP_STATE, a); (1%nat, OP_CLEAN, b); (1%nat, OP_CDROP, c); (1%nat, OP_STATE, d)].
-Definition expect_guard (k : nat) : list (nat * N * N) :=
-  if Nat.leb k 1 then follow VDNE K_DoesNotExist 0 VDNE
-  else if Nat.leb k 11 then follow VStarting K_Initializing 0 VStarting
-  else if Nat.leb k 13 then (0%nat, OP_CREATE, 0) :: follow VDead 0 0 VDNE
-  else if Nat.leb k 19 then (0%nat, OP_CREATE, 0) :: follow VCleaning K_BeingCleaned 0 VCleaning
-  else (0%nat, OP_CREATE, 0) :: follow VDNE K_DoesNotExist 0 VDNE.
-
-Definition trip_eqb (a b : nat * N * N) : bool :=
-  Nat.eqb (fst (fst a)) (fst (fst b)) && N.eqb (snd (fst a)) (snd (fst b)) && N.eqb (snd a) (snd b).
-Fixpoint list_eqb {A} (e : A -> A -> bool) (a b : list A) : bool :=
-  match a, b with [], [] => true | x :: a', y :: b' => e x y && list_eqb e a' b' | _, _ => false end.
-Lemma trip_eqb_eq a b : trip_eqb a b = true -> a = b.
-Proof.
-  destruct a as [[a1 a2] a3], b as [[b1 b2] b3]. unfold trip_eqb. cbn. intros H.
-  apply andb_prop in H. destruct H as [H H3]. apply andb_prop in H. destruct H as [H1 H2].
-  apply Nat.eqb_eq in H1. apply N.eqb_eq in H2. apply N.eqb_eq in H3. now subst.
-Qed.
-Lemma list_eqb_eq {A} (e : A -> A -> bool) (He : forall a b, e a b = true -> a = b) a b : list_eqb e a b = true -> a = b.
-Proof.
-  revert b. induction a as [|x a IH]; intros [|y b]; cbn; try discriminate; auto.
-  intros H. apply andb_prop in H. destruct H as [H1 H2]. f_equal; auto.
-Qed.
-
-Lemma guard_table_ok : forallb (fun priv => forallb (fun k => list_eqb trip_eqb (fst (after_guard_kill priv k)) (expect_guard k)) (seq 0 21)) [false; true] = true.
-Proof. vm_compute. reflexivity. Qed.
-
-Theorem guard_kill_table : forall priv k, (k <= 20)%nat -> fst (after_guard_kill priv k) = expect_guard k.
-Proof.
-  intros priv k Hk. pose proof guard_table_ok as H. rewrite forallb_forall in H.
-  assert (Hp : In priv [false; true]) by (destruct priv; cbn; auto).
-  specialize (H _ Hp). rewrite forallb_forall in H.
-  apply (list_eqb_eq _ trip_eqb_eq). apply H. apply in_seq. lia.
-Qed.
-
-(* the residue is collected (directory empty afterwards) exactly for these kill points *)
-Definition guard_collectable (k : nat) : bool := Nat.leb k 1 || (Nat.leb 12 k && Nat.leb k 13) || Nat.leb 20 k.
-Lemma guard_residue_ok : forallb (fun priv => forallb (fun k => Bool.eqb (match snd (after_guard_kill priv k) with [] => true | _ => false end) (guard_collectable k)) (seq 0 21)) [false; true] = true.
-Proof. vm_compute. reflexivity. Qed.
-Theorem guard_kill_residue : forall priv k, (k <= 20)%nat -> (snd (after_guard_kill priv k) = [] <-> guard_collectable k = true).
-Proof.
-  intros priv k Hk. pose proof guard_residue_ok as H. rewrite forallb_forall in H.
-  assert (Hp : In priv [false; true]) by (destruct priv; cbn; auto).
-  specialize (H _ Hp). rewrite forallb_forall in H.
-  assert (Hin : In k (seq 0 21)) by (apply in_seq; lia). specialize (H _ Hin).
-  apply Bool.eqb_prop in H. rewrite <- H. destruct (snd (after_guard_kill priv k)); split; intros; congruence.
-Qed.
-
-(* the winning cleaner killed before its j-th call; NEWCALLS = calls of ProcessCleaner::new *)
-Definition newcalls (priv : bool) : nat := if priv then 18%nat else 16%nat.
-Definition after_cleaner_kill (priv : bool) (j : nat) :=
-  seq_rets priv [([OCreate; OExit], None); ([OClean; OCDrop], Some j); (FOLLOW, None)].
-Definition follow2 (a b c d : N) : list (nat * N * N) := [(2%nat, OP_STATE, a); (2%nat, OP_CLEAN, b); (2%nat, OP_CDROP, c); (2%nat, OP_STATE, d)].
-Definition expect_cleaner (priv : bool) (j : nat) : list (nat * N * N) :=
-  let n := newcalls priv in
-  let pre := (0%nat, OP_CREATE, 0) :: (if Nat.ltb j n then [] else [(1%nat, OP_CLEAN, 0)]) in
-  if Nat.leb j (n + 1) then pre ++ follow2 VDead 0 0 VDNE
-  else if Nat.leb j (n + 7) then pre ++ follow2 VCleaning K_BeingCleaned 0 VCleaning
-  else pre ++ follow2 VDNE K_DoesNotExist 0 VDNE.
-Lemma cleaner_table_ok : forallb (fun priv => forallb (fun j => list_eqb trip_eqb (fst (after_cleaner_kill priv j)) (expect_cleaner priv j)) (seq 0 (newcalls priv + 9))) [false; true] = true.
-Proof. vm_compute. reflexivity. Qed.
-Theorem cleaner_kill_table : forall priv j, (j <= newcalls priv + 8)%nat -> fst (after_cleaner_kill priv j) = expect_cleaner priv j.
-Proof.
-  intros priv j Hj. pose proof cleaner_table_ok as H. rewrite forallb_forall in H.
-  assert (Hp : In priv [false; true]) by (destruct priv; cbn; auto).
-  specialize (H _ Hp). rewrite forallb_forall in H.
-  apply (list_eqb_eq _ trip_eqb_eq). apply H. apply in_seq. lia.
-Qed.
-
-(* ---------------- refuting schedules ---------------- *)
-(* F3 before the repair a8f7c5d (nlink_check = false): Dead while the guard process lives *)
-Definition f3_sched : list nat := repeat 0%nat 15 ++ repeat 1%nat 9 ++ repeat 0%nat 2 ++ repeat 1%nat 2.
-Definition f3_run (nlc : bool) := run (step false nlc) f3_sched (init (progs_of (inst_mon None)) (kills_of (inst_mon None))).
-Lemma f3_before_repair : In (1%nat, ERet OP_STATE VDead) (snd (f3_run false)) /\ crashed (snd (fst (f3_run false)) 0%nat) = false.
-Proof. vm_compute. split; [|reflexivity]. repeat (try (left; reflexivity); right). Qed.
-Lemma f3_after_repair : rets (snd (f3_run true)) = [(0%nat, OP_CREATE, 0); (1%nat, OP_STATE, VCleaning)].
-Proof. vm_compute. reflexivity. Qed.
-
-(* N4: the owner of a ProcessCleaner queries state() itself; afterwards a second process obtains
-   a ProcessCleaner while the first still owns its own *)
-Definition n4_inst : list (list pop * option nat) := [([OCreate; OExit], None); ([OClean; OState], None); ([OClean], None)].
-Definition n4_run := run (step false true) (seq_sched 3) (init (progs_of n4_inst) (kills_of n4_inst)).
-Lemma n4_two_owners :
-  rets (snd n4_run) = [(0%nat, OP_CREATE, 0); (1%nat, OP_CLEAN, 0); (1%nat, OP_STATE, VDead); (2%nat, OP_CLEAN, 0)] /\
-  cfd (snd (fst n4_run) 1%nat) <> None /\ cfd (snd (fst n4_run) 2%nat) <> None /\
-  crashed (snd (fst n4_run) 1%nat) = false.
-Proof. vm_compute. repeat split; congruence. Qed.
-(* without the own state() query the second process is refused *)
-Definition n4c_inst : list (list pop * option nat) := [([OCreate; OExit], None); ([OClean], None); ([OClean], None)].
-Lemma n4_control : fst (seq_rets false n4c_inst) = [(0%nat, OP_CREATE, 0); (1%nat, OP_CLEAN, 0); (2%nat, OP_CLEAN, K_BeingCleaned)].
-Proof. vm_compute. reflexivity. Qed.
